@@ -380,6 +380,24 @@ func vWatchPauseEvents() {
 	})
 }
 
+// the instants at which a target enters and leaves the draining state, observed at the stores to Target.state (the
+// drain_begin / drain_end events of the Drain wrapper may be several scheduling points away from them)
+var vWasDraining = map[*Target]bool{}
+
+func vWatchDrainState() {
+	vWatchStore("server.Target.state", func(obj any) {
+		t := obj.(*Target)
+		now := t.state == TargetStateDraining
+		if now && !vWasDraining[t] {
+			vEmit(vEvent{kind: "draining_set", target: t.Target()})
+		}
+		if !now && vWasDraining[t] {
+			vEmit(vEvent{kind: "draining_cleared", target: t.Target()})
+		}
+		vWasDraining[t] = now
+	})
+}
+
 func vIndexOf(kind string, req int) int {
 	for i, e := range vTrace {
 		if e.kind == kind && (req < 0 || e.req == req) {
